@@ -267,6 +267,10 @@ package cli
 //@       w, c.options, $k, fieldHeap(c.args[0].Names), fieldHeap(c.args[0].Name), fieldHeap(c.args[0].Desc), fieldHeap(c.args[0].EnvVar), fieldHeap(c.args[0].HideValue), fieldHeap(c.args[0].DefaultValue))
 //@   loop 3 step filtered: commands == (c.Hidden ? startVal(3, commands) : startVal(3, commands) ++ seq(c))
 //@   loop 3 step init-ok: callOK("doInit", len(startTrace(3)))
+//@   loop 3 exit every-sub-command-visited: exhausted()
+//@   loop 1 exit every-argument-listed: exhausted()
+//@   loop 2 exit every-option-listed: exhausted()
+//@   loop 4 exit every-visible-command-listed: exhausted()
 //@   loop 4 step row: trace == startTrace(4) ++ seq(evOut(w, fmt_sprintf("  %s\t%s\n", seq(toIface("string", strings_Join(c.aliases, ", ")), toIface("string", c.desc)))))
 //@   loop 1 invariant no-flow: noFlow(old(trace), trace)
 //@   loop 2 invariant no-flow: noFlow(old(trace), trace)
